@@ -92,7 +92,12 @@ func (t *tr) typ(e ast.Expr) string {
 	switch x := e.(type) {
 	case *ast.Ident:
 		switch x.Name {
-		case "bool", "string":
+		case "string":
+			if t.unit.bytestr {
+				return "list Z"
+			}
+			return x.Name
+		case "bool":
 			return x.Name
 		case "int", "int8", "int16", "int32", "int64", "uint", "uint8", "uint16", "uint32", "uint64", "byte":
 			return "Z" // mathematical integers: wrap-around is not modelled
@@ -538,7 +543,7 @@ type fctx struct {
 
 var reserved = strings.Fields(`as at cofix else end exists exists2 fix for forall fun if IF in let match mod Prop return
   Set then Type using where with by effs_ lookup update isSome odef zlen slice_to slice_from Ret Panic app negb true false
-  Some None tt fst snd effs_1 slen nth rev now_ fuel_ O S length Z bool string list option alist unit nil cons res effect andb orb`)
+  Some None tt fst snd effs_1 slen nth rev now_ fuel_ O S bytes_eqb bytes_has_prefix bytes_index bytes_index_byte length Z bool string list option alist unit nil cons res effect andb orb`)
 
 func (c *fctx) fresh(base string) string {
 	for _, ch := range base {
